@@ -157,7 +157,11 @@ def _src_hash(paths, extra):
 def harness(variant, name, sources, extra_flags="", libs="", objects=(), link_bx=True, std="gnu++17"):
     """Compile harness program `name` from `sources` (paths relative to
     /verif/harness) against the variant; returns the executable path."""
-    bdir = build(variant, targets=("BxDecay0",) if link_bx else ())
+    if link_bx:
+        bdir = build(variant, targets=("BxDecay0",))
+    else:
+        bdir = variant_dir(variant)
+        os.makedirs(bdir, exist_ok=True)
     v = VARIANTS[variant]
     srcs = [s if os.path.isabs(s) else os.path.join(VERIF, "harness", s) for s in sources]
     key = _src_hash(srcs, extra_flags + libs + " ".join(objects) + v["flags"] + std)
